@@ -92,6 +92,36 @@ theorem layering_exact (d u : Cfg ℝ) (hw : WF u) (hmis : Sub (prune (allKeys d
   ⟨look_update_prune (allKeys d) p u hw d hp,
    update_lookup d _ (wf_prune _ u hw) hmis p x hd⟩
 
+/-- **a partial file always loads**: for a custom mapping that, unknown names removed, lies inside
+the default key tree, `_loadConfig` does not raise; it returns the updated tree and reports
+`keys(u) \ keys(d)`. -/
+theorem partial_file_loads (d : Cfg ℝ) (us : List (String × Cfg ℝ)) (hw : WF (.node us))
+    (hmis : Sub (prune (allKeys d) (.node us)) d) :
+    loadConfig d (some (.node us)) = .ok (update d (.node us), reported d (.node us)) := by
+  have hc := no_clash (allKeys d) (.node us) hw d (fun _ h => h) hmis
+  simp [loadConfig, hc]
+
+/-- `calculateDerived(path)` as a whole: `_loadConfig`, then the generated function -/
+noncomputable def calculateDerivedFile (d : Cfg ℝ) (u : Option (Cfg ℝ)) : Except String (List (String × Val ℝ)) :=
+  match loadConfig d u with
+  | .error e => .error e
+  | .ok (cfg, _) => Gen.calculateDerived cfg
+
+/-- **unknown keys are inert for the whole load** (no exception is introduced or removed either):
+the file and the file without its unknown names give the same constants or the same exception. -/
+theorem unknown_keys_inert_file (d : Cfg ℝ) (us : List (String × Cfg ℝ)) (hw : WF (.node us))
+    (hmis : Sub (prune (allKeys d) (.node us)) d)
+    (hK : ∀ p ∈ readPaths, ∀ k ∈ p, k ∈ allKeys d) :
+    calculateDerivedFile d (some (.node us)) = calculateDerivedFile d (some (prune (allKeys d) (.node us))) := by
+  have h1 := partial_file_loads d us hw hmis
+  have hw' : WF (prune (allKeys d) (.node us)) := wf_prune _ _ hw
+  have hm' : Sub (prune (allKeys d) (prune (allKeys d) (.node us))) d := by rw [prune_idem]; exact hmis
+  simp only [prune] at hw' hm' ⊢
+  have h2 := partial_file_loads d _ hw' hm'
+  simp only [calculateDerivedFile, h1, h2]
+  have := unknown_keys_inert d (.node us) hw hK
+  simpa [prune] using this
+
 /-! ### defining relations of the derived constants (generated code, over ℝ) -/
 
 section relations
